@@ -1,6 +1,7 @@
 """C02 — Heat-bath diagonal update yields the same equilibrium as the default update (partial: see design_notes/C02.md)."""
 from checks import kern, law_audits
 from checks import pure_fns
+from checks import api_cov
 LEAN_TARGETS = ["QmcProps.C02", "drv_c02", "drv_c17"]
 BINS = ["c02", "kern", "c17"]
 
@@ -53,4 +54,5 @@ def main(ck):
     ck.assumptions.append("partial: ergodicity/convergence of the chain and the SSE representation theorem (weight -> thermal state) are mathematics outside the model; "
                           "Lean carries the per-slot ratio / detailed balance for every weight table and the table-validity invariant")
     law_audits.run(ck, groups=['refine', 'ideal', 'heatbath', 'good'])   # idealised law of the executable model = the Markov kernel of the invariance theorems
+    api_cov.run(ck, "c08")   # otherwise unexercised public API, model-free oracles of this property
     return ck.finish(RULE)
